@@ -3,6 +3,7 @@ package processorqueue
 import (
 	publictypes "lunar/engine/streams/public-types"
 	context_manager "lunar/toolkit-core/context-manager"
+	"lunar/toolkit-core/verifhook"
 	"sync"
 	"time"
 
@@ -122,5 +123,7 @@ func (r *Request) Wait() bool {
 }
 
 func (r *Request) setSignal() {
+	verifhook.Yield("queue.before-done")
 	r.waitGroup.Done()
+	verifhook.Yield("queue.after-done")
 }
